@@ -60,6 +60,7 @@ func h265Rich(kind int, donl bool) []byte {
 func h265Used(b []byte, donl bool) *codecs.H265Packet {
 	p := &codecs.H265Packet{}
 	p.WithDONL(donl)
+	p.SetZeroAllocation(len(b)%2 == 1) // every other case: the reused receiver runs in zero-allocation mode
 	kinds := []int{19, 48, 50, 49}
 	if len(b) > 0 {
 		k := int(b[0]>>1) & 63
